@@ -41,12 +41,16 @@ inductive SStmt where
   | while (c : Cond) (b : SStmt)
   | doWhile (b : SStmt) (c : Cond)
   | for (init : RStmt) (c : Cond) (upd : RStmt) (b : SStmt)
+  | brk                                           -- `break;`     (stage 5)
+  | cont                                          -- `continue;`
+  | ifBrk (c : Cond)                              -- `if (c) break;` without braces: one branch to the break label
+  | ifCont (c : Cond)                             -- `if (c) continue;`
   deriving Repr, Inhabited
 
 /-! ### labels -/
 
 inductive LKind where
-  | ifend | else_ | ifhere | ifstart | while_ | whileend | dowhile | dowhileend | for_ | forupdate | forend
+  | ifend | else_ | ifhere | ifstart | while_ | whileend | dowhile | dowhileend | dowhilecondition | for_ | forupdate | forend
   deriving Repr, DecidableEq, Inhabited
 
 /-- which of the generator's three counters names a label of this kind -/
@@ -55,12 +59,13 @@ inductive Ctr where | cIf | cWhile | cFor
 
 def LKind.ctr : LKind → Ctr
   | .ifend | .else_ | .ifhere | .ifstart => .cIf
-  | .while_ | .whileend | .dowhile | .dowhileend => .cWhile
+  | .while_ | .whileend | .dowhile | .dowhileend | .dowhilecondition => .cWhile
   | .for_ | .forupdate | .forend => .cFor
 
 def LKind.text : LKind → String
   | .ifend => ".ifend" | .else_ => ".else" | .ifhere => ".ifhere" | .ifstart => ".ifstart"
   | .while_ => ".while" | .whileend => ".whileend" | .dowhile => ".dowhile" | .dowhileend => ".dowhileend"
+  | .dowhilecondition => ".dowhilecondition"
   | .for_ => ".for" | .forupdate => ".forupdate" | .forend => ".forend"
 
 structure Lbl where
@@ -256,41 +261,69 @@ def flatLines (zp : String → Bool) (s : RStmt) : List GLine :=
 def genFlat (g : GState) (s : RStmt) : List GLine × GState :=
   (flatLines (zpL g.abs) s, { g with flags := flagsAfter (zpL g.abs) g.flags s })
 
-def gen (g : GState) : SStmt → List GLine × GState
+/-- does the statement contain a `continue` that belongs to the loop it is the body of (not to a loop inside it)?
+    (`generate_continue` marks the innermost entry of the `loops` stack; `generate_do_while` emits the
+    `.dowhilecondition` label only when its entry was marked) -/
+def contHere : SStmt → Bool
+  | .cont => true
+  | .ifCont _ => true
+  | .seq a b => contHere a || contHere b
+  | .ifThen _ t => contHere t
+  | .ifElse _ t e => contHere t || contHere e
+  | _ => false
+
+/-- the innermost loop: (label a `continue` jumps to, label a `break` jumps to) — the top of the generator's
+    `loops` stack. It is a parameter of `gen`, not part of the state: a loop passes its own labels to its body -/
+abbrev LoopCtx := Option (Lbl × Lbl)
+
+def gen (lp : LoopCtx) (g : GState) : SStmt → List GLine × GState
   | .flat s => genFlat g s
   | .skip => ([], g)
+  | .brk => (match lp with | some (_, bl) => ([.jmp bl], g) | none => ([], g))
+  | .cont => (match lp with | some (cl, _) => ([.jmp cl], g) | none => ([], g))
+  -- `generate_if` with a bare `break` / `continue` as body: the counter is taken, the label is not used;
+  -- the condition branches to the loop's label itself
+  | .ifBrk c => (match lp with
+      | some (_, bl) => genCond { g with cIf := g.cIf + 1 } c false bl
+      | none => ([], { g with cIf := g.cIf + 1 }))
+  | .ifCont c => (match lp with
+      | some (cl, _) => genCond { g with cIf := g.cIf + 1 } c false cl
+      | none => ([], { g with cIf := g.cIf + 1 }))
   | .seq a b =>
-    let (ca, g1) := gen g a
-    let (cb, g2) := gen g1 b
+    let (ca, g1) := gen lp g a
+    let (cb, g2) := gen lp g1 b
     (ca ++ cb, g2)
   | .ifThen c t =>
     let g0 := { g with cIf := g.cIf + 1 }
     let ifend : Lbl := ⟨.ifend, g0.cIf⟩
     let (cc, g1) := genCond g0 c true ifend
-    let (ct, g2) := gen g1 t
+    let (ct, g2) := gen lp g1 t
     (cc ++ ct ++ [.lab ifend], { g2 with flags := none })
   | .ifElse c t e =>
     let g0 := { g with cIf := g.cIf + 1 }
     let ifend : Lbl := ⟨.ifend, g0.cIf⟩
     let els : Lbl := ⟨.else_, g0.cIf⟩
     let (cc, g1) := genCond g0 c true els
-    let (ct, g2) := gen g1 t
-    let (ce, g3) := gen { g2 with flags := if c.singleExit then g1.flags else none } e
+    let (ct, g2) := gen lp g1 t
+    let (ce, g3) := gen lp { g2 with flags := if c.singleExit then g1.flags else none } e
     (cc ++ ct ++ [.jmp ifend, .lab els] ++ ce ++ [.lab ifend], { g3 with flags := none })
   | .while c b =>
     let g0 := { g with cWhile := g.cWhile + 1, flags := none }
     let wl : Lbl := ⟨.while_, g0.cWhile⟩
     let we : Lbl := ⟨.whileend, g0.cWhile⟩
     let (cc, g1) := genCond g0 c true we
-    let (cb, g2) := gen g1 b
+    let (cb, g2) := gen (some (wl, we)) g1 b
     ([.lab wl] ++ cc ++ cb ++ [.jmp wl, .lab we], { g2 with flags := none })
   | .doWhile b c =>
     let g0 := { g with cWhile := g.cWhile + 1, flags := none }
     let dl : Lbl := ⟨.dowhile, g0.cWhile⟩
+    let dc : Lbl := ⟨.dowhilecondition, g0.cWhile⟩
     let de : Lbl := ⟨.dowhileend, g0.cWhile⟩
-    let (cb, g1) := gen g0 b
-    let (cc, g2) := genCond g1 c false dl
-    ([.lab dl] ++ cb ++ cc ++ [.lab de], { g2 with flags := none })
+    let (cb, g1) := gen (some (dc, de)) g0 b
+    -- the label a `continue` jumps to exists only when the body has one (and forgets the flags)
+    let mid : List GLine := if contHere b then [.lab dc] else []
+    let (cc, g2) := genCond (if contHere b then { g1 with flags := none } else g1) c false dl
+    ([.lab dl] ++ cb ++ mid ++ cc ++ [.lab de], { g2 with flags := none })
   | .for init c upd b =>
     let g0 := { g with cFor := g.cFor + 1 }
     let fl : Lbl := ⟨.for_, g0.cFor⟩
@@ -298,7 +331,7 @@ def gen (g : GState) : SStmt → List GLine × GState
     let fe : Lbl := ⟨.forend, g0.cFor⟩
     let (ci, g1) := genFlat g0 init
     let (c1, g2) := genCond g1 c true fe
-    let (cb, g3) := gen { g2 with flags := none } b
+    let (cb, g3) := gen (some (fu, fe)) { g2 with flags := none } b
     let (cu, g4) := genFlat { g3 with flags := none } upd
     let (c2, g5) := genCond g4 c false fl
     (ci ++ c1 ++ [.lab fl] ++ cb ++ [.lab fu] ++ cu ++ c2 ++ [.lab fe], { g5 with flags := none })
@@ -322,6 +355,17 @@ def SInFragment : SStmt → Bool
   | .while c b => CondOK c && SInFragment b
   | .doWhile b c => CondOK c && SInFragment b
   | .for i c u b => RInFragment i && CondOK c && RInFragment u && SInFragment b
+  | .brk | .cont => true
+  | .ifBrk c | .ifCont c => CondOK c
+
+/-- `break` and `continue` occur inside loops only (`inLoop` = we are inside one) -/
+def Scoped (inLoop : Bool) : SStmt → Bool
+  | .brk | .cont | .ifBrk _ | .ifCont _ => inLoop
+  | .seq a b => Scoped inLoop a && Scoped inLoop b
+  | .ifThen _ t => Scoped inLoop t
+  | .ifElse _ t e => Scoped inLoop t && Scoped inLoop e
+  | .while _ b | .doWhile b _ | .for _ _ _ b => Scoped true b
+  | _ => true
 
 /-! ### rendering for the tie -/
 
@@ -350,20 +394,53 @@ def evalCond (L : Layout) (m : SrcSt) : Cond → Bool
   | .or a b => evalCond L m a || evalCond L m b
   | .not c => !evalCond L m c
 
+/-- how a statement ends: normally, by `break`, by `continue` -/
+inductive Exit where | norm | brk | cont
+  deriving Repr, DecidableEq, Inhabited
+
+abbrev Out := Exit × SrcSt
+
+mutual
 /-- big-step meaning of a statement; `none` = not finished within the fuel -/
-def sem (L : Layout) : Nat → SrcSt → SStmt → Option SrcSt
+def sem (L : Layout) : Nat → SrcSt → SStmt → Option Out
   | 0, _, _ => none
-  | _ + 1, m, .flat s => some (rspec L m s)
-  | _ + 1, m, .skip => some m
-  | f + 1, m, .seq a b => (sem L f m a).bind fun m1 => sem L f m1 b
-  | f + 1, m, .ifThen c t => if evalCond L m c then sem L f m t else some m
+  | _ + 1, m, .flat s => some (.norm, rspec L m s)
+  | _ + 1, m, .skip => some (.norm, m)
+  | _ + 1, m, .brk => some (.brk, m)
+  | _ + 1, m, .cont => some (.cont, m)
+  | _ + 1, m, .ifBrk c => some (if evalCond L m c then .brk else .norm, m)
+  | _ + 1, m, .ifCont c => some (if evalCond L m c then .cont else .norm, m)
+  | f + 1, m, .seq a b =>
+    (match sem L f m a with
+     | some (.norm, m1) => sem L f m1 b
+     | r => r)
+  | f + 1, m, .ifThen c t => if evalCond L m c then sem L f m t else some (.norm, m)
   | f + 1, m, .ifElse c t e => if evalCond L m c then sem L f m t else sem L f m e
   | f + 1, m, .while c b =>
-    if evalCond L m c then (sem L f m b).bind fun m1 => sem L f m1 (.while c b) else some m
+    if evalCond L m c then
+      (match sem L f m b with
+       | none => none
+       | some (.brk, m1) => some (.norm, m1)
+       | some (_, m1) => sem L f m1 (.while c b))
+    else some (.norm, m)
   | f + 1, m, .doWhile b c =>
-    (sem L f m b).bind fun m1 => if evalCond L m1 c then sem L f m1 (.doWhile b c) else some m1
-  | f + 1, m, .for i c u b =>
-    sem L f (rspec L m i) (.while c (.seq b (.flat u)))
+    (match sem L f m b with
+     | none => none
+     | some (.brk, m1) => some (.norm, m1)
+     | some (_, m1) => if evalCond L m1 c then sem L f m1 (.doWhile b c) else some (.norm, m1))
+  | f + 1, m, .for i c u b => semFor L c u b f (rspec L m i)
+
+/-- the loop of a `for` behind its initialisation: a `continue` in the body still runs the update -/
+def semFor (L : Layout) (c : Cond) (u : RStmt) (b : SStmt) : Nat → SrcSt → Option Out
+  | 0, _ => none
+  | f + 1, m =>
+    if evalCond L m c then
+      (match sem L f m b with
+       | none => none
+       | some (.brk, m1) => some (.norm, m1)
+       | some (_, m1) => semFor L c u b f (rspec L m1 u))
+    else some (.norm, m)
+end
 
 /-! ### the machine on emitted lines -/
 
